@@ -20,7 +20,8 @@ def run_suite(prop, runs=None, only=None, tier="quick", verbose=True):
             continue
         scratch = tempfile.mkdtemp(prefix="nflows_mut_")
         try:
-            shutil.copytree("/repo/nflows", os.path.join(scratch, "nflows"))
+            base = os.path.realpath(os.environ.get("VERIF_REPO", "/repo"))
+            shutil.copytree(os.path.join(base, "nflows"), os.path.join(scratch, "nflows"))
             for e in m["edits"]:
                 p = os.path.join(scratch, e["file"])
                 s = open(p).read()
